@@ -1239,3 +1239,172 @@ pub fn t12() -> BoxedStrategy<Value> {
         })
         .boxed()
 }
+
+/// T13: the cell is changed away from the expected value and back (X -> Y -> X) around a CAS that
+/// is parked inside: before its first / second hardware CAS, or at a load it might perform. A
+/// strong CAS that reports failure must hand back a `current` that differs from `expected` - there
+/// is no instant at which such a call could have failed otherwise.
+pub fn t13() -> BoxedStrategy<Value> {
+    (
+        0u8..48,
+        (0u8..8, any::<bool>(), 0u8..3, 0u32..3, any::<bool>()),
+        (0u8..3, 0u8..3, any::<bool>(), 0u8..3),
+    )
+        .prop_map(|(align, (tag, starts_changed, park, nth, desired_null), (back_how, k, tag_cas, rounds))| {
+            let (a, b) = (0usize, 1usize);
+            const SITES: [u32; 3] = [site::LINK_LOAD, site::LINK_CAS, site::LINK_SWAP];
+            let mut t = TB::new(2);
+            t.new_node(a, "X", None, None, 3, 20);
+            if tag > 0 {
+                t.raw(a, crate::rcworld::K::RcTag, 0, tag, 0);
+            }
+            t.new_node(a, "D", None, None, 3, 30);
+            t.new_node(b, "Y", None, None, 3, 40);
+            t.pin(a);
+            t.clone_rc(a, "X", "Xc");
+            t.store(a, C::Root(0), Some("Xc"), 0);
+            t.load(a, C::Root(0), 0, "e");
+            t.run(a);
+            // B keeps an owned X to write it back later
+            t.pin(b);
+            t.load(b, C::Root(0), 0, "bx");
+            t.counted(b, "bx", "Xb");
+            t.unpin(b, 0);
+            t.advance(b, k);
+            t.run(b);
+            let away = |t: &mut TB| {
+                t.pin(b);
+                t.clone_rc(b, "Y", "Yc");
+                t.store(b, C::Root(0), Some("Yc"), 0);
+                t.unpin(b, 0);
+                t.run(b);
+            };
+            let back = |t: &mut TB| {
+                t.pin(b);
+                t.clone_rc(b, "Xb", "Xw");
+                match back_how {
+                    0 => t.store(b, C::Root(0), Some("Xw"), 0),
+                    1 => {
+                        t.swap(b, C::Root(0), "Xw", "old");
+                        t.drop_rc(b, "old");
+                    }
+                    _ => {
+                        t.load(b, C::Root(0), 0, "cur");
+                        t.cas(b, C::Root(0), Some("cur"), Some("Xw"), true, "old", "c2");
+                        t.drop_rc(b, "old");
+                    }
+                }
+                t.unpin(b, 0);
+                t.run(b);
+            };
+            if starts_changed {
+                away(&mut t);
+            }
+            // the CAS under test (outcome depends on the schedule: slots are declared for failure)
+            if tag_cas {
+                t.cas_tag(a, C::Root(0), "e", tag.wrapping_add(1), "r");
+            } else {
+                t.cas(a, C::Root(0), Some("e"), if desired_null { None } else { Some("D") }, false, "prev", "cur");
+            }
+            t.run_until_site(a, SITES[park as usize % 3], nth + 1);
+            if starts_changed {
+                back(&mut t);
+            } else {
+                away(&mut t);
+                if rounds > 0 {
+                    back(&mut t);
+                }
+            }
+            t.run(a);
+            t.unpin(a, 0);
+            t.run(a);
+            t.advance(b, 4);
+            t.run(b);
+            t.finish(align, "T13")
+        })
+        .boxed()
+}
+
+/// T13w: the same for AtomicWeak.
+pub fn t13w() -> BoxedStrategy<Value> {
+    (
+        0u8..48,
+        (0u8..8, any::<bool>(), 0u8..3, 0u32..3, any::<bool>()),
+        (0u8..3, 0u8..3, any::<bool>(), 0u8..3),
+    )
+        .prop_map(|(align, (tag, starts_changed, park, nth, desired_null), (back_how, k, tag_cas, rounds))| {
+            let (a, b) = (0usize, 1usize);
+            const SITES: [u32; 3] = [site::WLINK_LOAD, site::WLINK_CAS, site::WLINK_SWAP];
+            let mut t = TB::new(2);
+            t.new_node(a, "X", None, None, 3, 20);
+            if tag > 0 {
+                t.raw(a, crate::rcworld::K::RcTag, 0, tag, 0);
+            }
+            t.new_node(a, "D", None, None, 3, 30);
+            t.new_node(b, "Y", None, None, 3, 40);
+            t.downgrade(a, "X", "wx");
+            t.downgrade(a, "D", "wd");
+            t.downgrade(b, "Y", "wy");
+            t.pin(a);
+            t.wclone(a, "wx", "wxc");
+            t.wstore(a, WC::Root(0), Some("wxc"), 0);
+            t.wload(a, WC::Root(0), 0, "e");
+            t.run(a);
+            // B keeps a Weak to X to write it back later
+            t.pin(b);
+            t.wload(b, WC::Root(0), 0, "bx");
+            t.wcounted(b, "bx", "wxb");
+            t.unpin(b, 0);
+            t.advance(b, k);
+            t.run(b);
+            let away = |t: &mut TB| {
+                t.pin(b);
+                t.wclone(b, "wy", "wyc");
+                t.wstore(b, WC::Root(0), Some("wyc"), 0);
+                t.unpin(b, 0);
+                t.run(b);
+            };
+            let back = |t: &mut TB| {
+                t.pin(b);
+                t.wclone(b, "wxb", "wxw");
+                match back_how {
+                    0 => t.wstore(b, WC::Root(0), Some("wxw"), 0),
+                    1 => {
+                        t.wswap(b, WC::Root(0), Some("wxw"), "old");
+                        t.wdrop(b, "old");
+                    }
+                    _ => {
+                        t.wload(b, WC::Root(0), 0, "cur");
+                        t.wcas(b, WC::Root(0), Some("cur"), Some("wxw"), true, "old", "c2");
+                        t.wdrop(b, "old");
+                    }
+                }
+                t.unpin(b, 0);
+                t.run(b);
+            };
+            if starts_changed {
+                away(&mut t);
+            }
+            if tag_cas {
+                t.wcas_tag(a, WC::Root(0), "e", tag.wrapping_add(1), "r");
+            } else {
+                t.wcas(a, WC::Root(0), Some("e"), if desired_null { None } else { Some("wd") }, false, "prev", "cur");
+            }
+            t.run_until_site(a, SITES[park as usize % 3], nth + 1);
+            if starts_changed {
+                back(&mut t);
+            } else {
+                away(&mut t);
+                if rounds > 0 {
+                    back(&mut t);
+                }
+            }
+            t.run(a);
+            t.unpin(a, 0);
+            t.run(a);
+            t.advance(b, 4);
+            t.run(b);
+            t.finish(align, "T13w")
+        })
+        .boxed()
+}
